@@ -32,27 +32,34 @@ FULL_GROUP_MUTANTS = 6
 
 # --------------------------------------------------------------------------- cases
 
-def make_line(roots, queries, rng, equivalences=0):
+def make_line(roots, queries, key, ids=None, equivalences=0, own=None):
     """one case line: script | root slots | queries | serialised trees.
     roots: (role, description, tree, spec); spec None = build the tree as fresh objects;
-    spec (k, path) = the object already built at that path inside root k (a parented sub-object)."""
+    spec (k, path) = the object already built at that path inside root k (a parented sub-object).
+    The choices of the emission (which of several equivalent API calls; which units OBJECT a variable holds) are drawn
+    per root from Random("<key>/<id of the root>"), so that a replay restricted to some roots makes the same choices."""
     b = ScriptBuilder(check=False)
     slots, recs = [], []
-    for role, desc, t, spec in roots:
+    ids = list(range(len(roots))) if ids is None else ids
+    for n, (role, desc, t, spec) in enumerate(roots):
         if spec is None:
             rec = {}
-            slots.append(eg.emit(b, t, rng, rec=rec))
+            slots.append(eg.emit(b, t, random.Random("%s/%s" % (key, ids[n])), rec=rec))
             recs.append(rec)
         else:
             slots.append(recs[spec[0]][spec[1]][1])
             recs.append({})
     # variable equivalences on the exact copy (root 1): equals must not look at them
     if equivalences and len(recs) > 1:
+        rng = random.Random("%s/eq" % key)
         vs = sorted(set(sl for pth, (t, sl) in recs[1].items() if t[0] == 'V' and len(pth) >= 2 and pth[-2] == 'var'))
         for _ in range(equivalences):
             if len(vs) >= 2:
                 v1, v2 = rng.sample(vs, 2)
                 b.cmd("addequivalence", v1, v2)
+    if own is not None:
+        for k, v in b.__dict__.get("own", {}).items():
+            own[k] = own.get(k, 0) + v
     return "%s|%s|%s|%s" % (b.text(), " ".join(map(str, slots)), " ".join("%d,%d" % q for q in queries),
                             ";".join(eg.ser(r[2]) for r in roots))
 
@@ -65,8 +72,9 @@ def corpus_case(n, trees):
     """a hand-written group of trees (corpus/C10.json): every ordered pair is asked"""
     roots = [("corpus", "corpus[%d][%d]" % (n, k), totuple(t), None) for k, t in enumerate(trees)]
     queries = [(i, j) for i in range(len(roots)) for j in range(len(roots))]
+    own = {}
     return {"seed": "corpus-%d" % n, "kind": "corpus", "roots": roots, "ng": len(roots), "queries": queries,
-            "line": make_line(roots, queries, random.Random(n))}
+            "line": make_line(roots, queries, "corpus-%d" % n, own=own), "own": own}
 
 
 def build_case(seed, mutcap):
@@ -114,8 +122,9 @@ def build_case(seed, mutcap):
         roots.append(("subcopy", "/".join(map(str, pth)), st, None))
         queries += [(n, n + 1), (n + 1, n), (n, n), (n + 1, n + 1)]
     neq = rng.choice([0, 0, 1, 3])
-    return {"seed": seed, "kind": kind, "roots": roots, "ng": ng, "queries": queries,
-            "line": make_line(roots, queries, rng, neq)}
+    own = {}
+    return {"seed": seed, "kind": kind, "roots": roots, "ng": ng, "queries": queries, "neq": neq,
+            "line": make_line(roots, queries, seed, equivalences=neq, own=own), "own": own}
 
 
 # --------------------------------------------------------------------------- known-finding matchers (over the case)
@@ -326,7 +335,7 @@ def run_shard(args):
     il = p1.communicate()[0].decode("utf-8", "replace").split("\n")
     ml = p2.communicate()[0].decode("utf-8", "replace").split("\n")
     out = {"bad": [], "kf": {}, "kf_count": {}, "pairs_true": 0, "pairs_false": 0, "triples": 0, "nontrivial": 0,
-           "sizes": [0] * 10, "kinds": {}, "mut_kinds": {}, "subpairs": {}, "ulp_steps": {}, "tolerance": 0, "evaluations": 0, "cases": len(cases), "roothashes": [],
+           "sizes": [0] * 10, "kinds": {}, "mut_kinds": {}, "subpairs": {}, "ulp_steps": {}, "tolerance": 0, "own": {}, "evaluations": 0, "cases": len(cases), "roothashes": [],
            "samples": []}
     for k, c in enumerate(cases):
         a = il[k] if k < len(il) else "<missing>"
@@ -334,6 +343,8 @@ def run_shard(args):
         eval_case(c, a, b, out)
         out["evaluations"] += len(c["queries"])
         out["roothashes"].append(eg.fnv1a(eg.ser(c["roots"][0][2])))
+        for kk, vv in c.get("own", {}).items():
+            out["own"][kk] = out["own"].get(kk, 0) + vv
         for bad in out["bad"]:
             if "case" not in bad and bad["seed"] == c["seed"]:
                 bad["case"] = minimal(c, bad, a, b)
@@ -358,15 +369,16 @@ def minimal(case, bad, il, ml):
         roots.append((role, desc, t, None if sp is None else (pos[sp[0]], sp[1])))
     qs = [(i, j) for i in range(len(inv)) for j in range(len(inv))]
     return {"what": bad["what"], "seed": case["seed"], "roots": [[k] + list(case["roots"][k][:2]) for k in inv],
-            "line": make_line(roots, qs, random.Random(0)), "queries": qs, "extra": bad.get("extra"),
-            "trees": [eg.ser(r[2]) for r in roots], "_roots": roots}
+            "line": make_line(roots, qs, case["seed"], ids=inv), "queries": qs, "extra": bad.get("extra"),
+            "trees": [eg.ser(r[2]) for r in roots], "_roots": roots, "_ids": inv,
+            "full_case_line": case["line"], "full_case_query": (bad.get("extra") or {}).get("query")}
 
 
-def run_one(drv, mdl, workdir, roots, tag="shrink"):
+def run_one(drv, mdl, workdir, roots, key=0, ids=None, tag="shrink"):
     """both drivers on one small case (every ordered pair); returns (impl bits, now bits, queries) or None"""
     qs = [(i, j) for i in range(len(roots)) for j in range(len(roots))]
     cf = os.path.join(workdir, "%s.cases" % tag)
-    open(cf, "w").write(make_line(roots, qs, random.Random(0)) + "\n")
+    open(cf, "w").write(make_line(roots, qs, key, ids=ids) + "\n")
     il = vf.sh([drv, cf], timeout=120)[1].strip().split(" ")
     ml = field(vf.sh([mdl, cf], timeout=120)[1].strip(), "now")
     if len(il) != 3 or ml is None or len(il[0]) != len(qs) or len(ml) != len(qs):
@@ -378,12 +390,14 @@ def shrink(drv, mdl, workdir, rep, budget=400):
     """greedy structural shrinking of a replay whose problem shows as a disagreement between implementation and model
     (for a symmetry failure: an asymmetric pair of the implementation that involves such a disagreement)"""
     roots = rep.pop("_roots", None)
+    ids = rep.pop("_ids", None)
+    key = rep["seed"]
     if roots is None or any(r[3] is not None for r in roots):
         return rep
     want_asym = "symmetry" in rep["what"]
 
     def still_bad(rs):
-        r = run_one(drv, mdl, workdir, rs)
+        r = run_one(drv, mdl, workdir, rs, key, ids)
         if r is None:
             return False
         impl, now, qs = r
@@ -396,6 +410,8 @@ def shrink(drv, mdl, workdir, rep, budget=400):
         return True
 
     if not still_bad(roots):
+        rep["shrunk"] = ("the case restricted to the roots involved does not show the disagreement (the objects held by the "
+                         "other roots matter): replay full_case_line instead, query full_case_query")
         return rep
     runs, progress = 1, True
     while progress and runs < budget:
@@ -415,8 +431,8 @@ def shrink(drv, mdl, workdir, rep, budget=400):
                 break
             if runs >= budget:
                 break
-    r = run_one(drv, mdl, workdir, roots)
-    rep["line"] = make_line(roots, r[2], random.Random(0))
+    r = run_one(drv, mdl, workdir, roots, key, ids)
+    rep["line"] = make_line(roots, r[2], key, ids=ids)
     rep["queries"] = r[2]
     rep["trees"] = [eg.ser(x[2]) for x in roots]
     rep["shrunk"] = {"driver_runs": runs, "impl": r[0], "model_now": r[1],
@@ -459,7 +475,7 @@ def run(ctx):
     with multiprocessing.Pool(vf.NCPU) as pool:
         outs = pool.map(run_shard, args, chunksize=1)
     tot = {"pairs_true": 0, "pairs_false": 0, "triples": 0, "nontrivial": 0, "evaluations": 0, "cases": 0}
-    sizes, kinds, mk, kfc, subp, ulpst = [0] * 10, {}, {}, {}, {}, {}
+    sizes, kinds, mk, kfc, subp, ulpst, ownst = [0] * 10, {}, {}, {}, {}, {}, {}
     ntol = 0
     seen_roots = set()
     nbad = 0
@@ -469,7 +485,7 @@ def run(ctx):
             tot[k] += o[k]
         for i in range(10):
             sizes[i] += o["sizes"][i]
-        for d, s in ((kinds, o["kinds"]), (mk, o["mut_kinds"]), (kfc, o["kf_count"]), (subp, o["subpairs"]), (ulpst, o["ulp_steps"])):
+        for d, s in ((kinds, o["kinds"]), (mk, o["mut_kinds"]), (kfc, o["kf_count"]), (subp, o["subpairs"]), (ulpst, o["ulp_steps"]), (ownst, o["own"])):
             for k, v in s.items():
                 d[k] = d.get(k, 0) + v
         ntol += o["tolerance"]
@@ -502,11 +518,13 @@ def run(ctx):
                     rep = shrink(drv, mdl, ctx.workdir, rep)
                 except Exception as ex:       # shrinking is a convenience; the unreduced replay is still valid
                     rep.pop("_roots", None)
+                    rep.pop("_ids", None)
                     rep["shrunk"] = "failed: %r" % ex
             ctx.violation("C10: " + bad["what"], "case_%d.json" % nbad, rep)
     for bad in allbad:
         if isinstance(bad.get("case"), dict):
             bad["case"].pop("_roots", None)
+            bad["case"].pop("_ids", None)
     ctx.cov["evaluations"] = tot["evaluations"]
     # distinct: the pairs are counted per case (distinct within the case by tree); cases with the same original are rare
     ctx.cov["distinct_nontrivial"] = int(tot["nontrivial"] * (len(seen_roots) / max(1, tot["cases"])))
@@ -524,6 +542,7 @@ def run(ctx):
         "transitivity_triples_with_both_premises_true": tot["triples"],
         "parented_sub_object_vs_free_standing_copy_by_kind": subp,
         "exponent_multiplier_mutations_by_ulp_step": dict(sorted(ulpst.items())),
+        "units_object_held_by_a_variable_by_ownership": dict(sorted(ownst.items())),
         "oracle_instances_inside_the_one_ulp_tolerance_no_claim": ntol,
         "oracle_failures_attributed_to_known_findings": kfc}
     ctx.cov["traces_validated_against_impl"] = tot["evaluations"]
@@ -545,3 +564,14 @@ def replay(ctx, path):
     for k, d in enumerate(out.split("|")[1].split(";") if "|" in out else []):
         print("root %d (as read back from the objects): %s" % (k, d))
     print("script :", r["line"].split("|")[0])
+    if r.get("full_case_line"):
+        # the whole case as it ran (the restricted case above may not hold the objects that matter)
+        open(cf, "w").write(r["full_case_line"] + "\n")
+        qs = r["full_case_line"].split("|")[2].split(" ")
+        fo = vf.sh([drv, cf])[1].strip().split(" ")[0]
+        fm = vf.sh([mdl, cf])[1].strip()
+        q = r.get("full_case_query")
+        if q is not None and "%d,%d" % tuple(q) in qs:
+            n = qs.index("%d,%d" % tuple(q))
+            print("full case, query %s: impl=%s model now=%s" % (q, fo[n], field(fm, "now")[n]))
+        print("full case: %d of %d answers differ from the model" % (sum(1 for a, b2 in zip(fo, field(fm, "now") or "") if a != b2), len(qs)))
